@@ -92,6 +92,10 @@ pub enum Mut {
     IndexPad { k: usize, val: u8 },
     /// coherent rewrite: the index lists only the first `keep` records (count = keep)
     IndexTruncate { keep: usize },
+    /// coherent rewrite: k junk bytes between the LZMA2 end byte and the block padding,
+    /// declared compressed size (field forced present), padding and index all consistent
+    /// with the enlarged size
+    PackedJunk { b: usize, k: usize, byte: u8 },
     /// coherent rewrite: records i and j exchanged
     IndexSwap { i: usize, j: usize },
     /// coherent rewrite: one extra record appended (count = n + 1)
@@ -194,7 +198,17 @@ pub fn write_xz(spec: &XzSpec, m: Option<&Mut>) -> XzFile {
         // header body (without size byte and crc)
         let mut body = Vec::new();
         let mut bflags = 0u8;
-        if blk.has_packed {
+        let mut junk: Vec<u8> = Vec::new();
+        let mut has_packed = blk.has_packed;
+        if let Some(Mut::PackedJunk { b, k, byte }) = m {
+            if *b == bi && *k > 0 {
+                junk = vec![*byte; *k];
+                has_packed = true;
+                applied = true;
+            }
+        }
+        let payload_total = blk.payload.len() + junk.len();
+        if has_packed {
             bflags |= 0x40;
         }
         if blk.has_unpacked {
@@ -225,8 +239,8 @@ pub fn write_xz(spec: &XzSpec, m: Option<&Mut>) -> XzFile {
             _ => {}
         }
         body.push(bflags);
-        if blk.has_packed {
-            let mut v = blk.payload.len() as u64;
+        if has_packed {
+            let mut v = payload_total as u64;
             if let Some(Mut::PackedSize { b, val }) = m {
                 if *b == bi {
                     v = *val;
@@ -298,10 +312,11 @@ pub fn write_xz(spec: &XzSpec, m: Option<&Mut>) -> XzFile {
         lay.boundaries.push(out.len());
         // payload
         bl.payload_off = out.len();
-        bl.payload_len = blk.payload.len();
+        bl.payload_len = payload_total;
         out.extend_from_slice(&blk.payload);
+        out.extend_from_slice(&junk);
         lay.boundaries.push(out.len());
-        let unpadded_wo_check = total + blk.payload.len();
+        let unpadded_wo_check = total + payload_total;
         let bpad = (4 - unpadded_wo_check % 4) % 4;
         bl.pad_len = bpad;
         let mut bpadding = vec![0u8; bpad];
